@@ -55,6 +55,9 @@ func genC05(rng *rand.Rand, tier string) *core.Plan {
 	p.Cfg["switch_pm"] = pick(rng, 0, 100, 400)
 	p.Cfg["crash_pm"] = pick(rng, 3, 10, 40)
 	p.Cfg["reader"] = rng.Intn(2)
+	if rng.Intn(4) == 0 {
+		p.Cfg["crash_create"] = 1 + rng.Intn(60) // the process dies at the n-th yield point of the queue's creation
+	}
 	phases := 1 + rng.Intn(4)
 	id := int64(0)
 	big := rng.Intn(3) == 0 // page roll-over heavy
@@ -188,12 +191,41 @@ func (l *ledger) verify(q queue.Queue, when string, quiescent bool) {
 func runC05(c *core.RunCtx) {
 	sim := c.Sim
 	dir := c.Dir + "/q"
+	if at := c.Plan.C("crash_create", 0); at > 0 {
+		// process death while the queue is being created: the reopened queue must be an empty queue
+		inc := sim.NewIncarnation()
+		n, dead, done := 0, false, false
+		sim.OnYield = func(label string) {
+			if dead || sim.CurInc() != inc || !(strings.HasPrefix(label, "page.") || strings.HasPrefix(label, "queue.")) {
+				return
+			}
+			n++
+			if n == at {
+				dead = true
+				sim.Fault("crash-in-create")
+				sim.Event("crash in creation at %s", label)
+				sim.Kill(inc)
+			}
+		}
+		sim.SpawnIn(inc, "creator", func() {
+			if q0, err := queue.NewQueue(dir, PageSize); err == nil {
+				q0.Close()
+			}
+			done = true
+		})
+		sim.Await(func() bool { return dead || done })
+		sim.OnYield = nil
+	}
 	q, err := queue.NewQueue(dir, PageSize)
 	if err != nil {
-		c.Anomaly("NewQueue: %v", err)
+		c.Violate("C05/reopen-failed", "NewQueue after an interrupted creation: %v", err)
 		return
 	}
 	l := &ledger{c: c, invoked: map[int64]bool{}, acked: map[int64]bool{}, seqOf: map[int64]int64{}, idAt: map[int64]int64{}}
+	l.verify(q, "after creation", true)
+	if c.Violated() {
+		return
+	}
 	apps := c.Plan.C("apps", 1)
 	crashP := float64(c.Plan.C("crash_pm", 10)) / 1000
 
